@@ -1130,14 +1130,17 @@ class LogixDriver(CIPDriver):
                 data_type = tag_data["tag_info"]["data_type_name"]
                 if bit is not None and tag_data["bool_elements"] is None:
                     if tag_data["plc_tag"] not in bit_writes:
-
-                        request = ReadModifyWriteRequestPacket(
-                            self._sequence,
-                            tag_data["plc_tag"],
-                            tag_data["tag_info"],
-                            -1 * (1 + len(bit_writes)),
-                            self._cfg["use_instance_ids"],
-                        )
+                        try:
+                            request = ReadModifyWriteRequestPacket(
+                                self._sequence,
+                                tag_data["plc_tag"],
+                                tag_data["tag_info"],
+                                -1 * (1 + len(bit_writes)),
+                                self._cfg["use_instance_ids"],
+                            )
+                        except RequestError as err:
+                            tag_data["error"] = f"Invalid Tag Request - {err!r}"
+                            continue
                         bit_writes[tag_data["plc_tag"]] = request
                     else:
                         request = bit_writes[tag_data["plc_tag"]]
